@@ -522,6 +522,19 @@ pub fn stream_cfgs(tier: &str) -> Vec<(StreamCfg, Bounds)> {
         1,
         0,
     );
+    // more than one 64 KiB window of text queued at once: the sender is window-limited and the
+    // receiving session handles more than a buffer's worth in one pass (default schedule only in
+    // the quick tier: one execution is ~300 segments)
+    add(
+        "40 x w[5000] back to back, read_exact(4096), 200 kB",
+        &|c| {
+            c.writes = vec![5000; 40];
+            c.read_size = 4096;
+            c.horizon_ms = 3000;
+        },
+        if q { 0 } else { 1 },
+        0,
+    );
     if !q {
         add(
             "w[3000] read_exact(4096) mtu1500, frame faults",
@@ -888,6 +901,7 @@ fn loom_scenarios(tier: &str) -> Vec<vkit::loomrun::LoomScenario> {
             }
         }
     }
+    v.push("sockbind:stream".into());
     v.push("ephemeral:2".into());
     v.push("ephemeral:3".into());
     if thorough {
